@@ -16,13 +16,15 @@ from .ctype import TInt, TPtr, TArray, TRecord, TFunc, TVoid
 
 class V:
     """integer value"""
-    __slots__ = ("t", "lo", "hi", "b", "p2")
+    __slots__ = ("t", "lo", "hi", "b", "p2", "tz")
 
-    def __init__(self, t, lo=None, hi=None, b=None, p2=None):
+    def __init__(self, t, lo=None, hi=None, b=None, p2=None, tz=0):
         if isinstance(t, bool):
             t = int(t)
         if isinstance(t, int):
             lo = hi = t
+            tz = 64 if t == 0 else (t & -t).bit_length() - 1
+        self.tz = tz                                        # number of low bits known to be zero (two's complement)
         self.t, self.lo, self.hi, self.b = t, lo, hi, b     # b: z3 Bool when the value is a 0/1 truth value
         self.p2 = p2                                        # V c when the value is known to be 2^c (from `1 << c`)
 
@@ -120,7 +122,10 @@ class Ptr:
 
     def index0(self, etype):
         """array lvalue -> pointer to its first element"""
-        return Ptr(self.block, self.steps + (("i", V(0)),), etype, self.null)
+        return Ptr(self.block, self.steps + (("i", V(0)),), etype, self.null, self.view)
+
+    def with_view(self, view):
+        return Ptr(self.block, self.steps, self.ctype, self.null, view)
 
     def shape(self):
         return tuple("[]" if k == "i" else v for k, v in self.steps)
@@ -129,6 +134,20 @@ class Ptr:
         if self.block is None:
             return "NULL"
         return "&%s%s" % (self.block.name, "".join("[%s]" % (v.t,) if k == "i" else ".%s" % v for k, v in self.steps))
+
+
+class OffsetTok:
+    """value of an offsetof(...) expression whose operands clang 14's JSON does not expose (container_of idiom only)"""
+
+    def __repr__(self):
+        return "<offsetof>"
+
+
+class VaTok:
+    """a va_list object (opaque)"""
+
+    def __repr__(self):
+        return "<va_list>"
 
 
 class Uninit:
@@ -165,6 +184,7 @@ class State:
 
     def __init__(self):
         self.mem = {}            # (block id, shape) -> z3 term (Int or Array)
+        self.pmem = {}           # (block id, shape) -> Ptr : data-pointer members of single objects
         self.ver = {}            # (block id, shape) -> havoc version
         self.blocks = {}         # id -> Block
         self.ghost = {}
@@ -173,6 +193,7 @@ class State:
     def snapshot(self):
         s = State()
         s.mem = dict(self.mem)
+        s.pmem = dict(self.pmem)
         s.ver = dict(self.ver)
         s.blocks = self.blocks
         s.ghost = dict(self.ghost)
